@@ -109,14 +109,21 @@ Qed.
 
 (* ------------------------------------------------------------------ *)
 (* last_leaf *)
+Lemma last_cons_indep : forall (A : Type) (l : list A) x d d',
+  List.last (x :: l) d = List.last (x :: l) d'.
+Proof.
+  induction l as [|y l IH]; intros x d d'; [reflexivity|].
+  change (List.last (y :: l) d = List.last (y :: l) d'). apply IH.
+Qed.
+
 Lemma last_leaf_walk : forall (t : ptree),
   NoDup (pleaf_ids t) -> chain_ok t -> (forall id, In id (pleaf_ids t) -> id <> NULL) ->
   forall L2 l L1 fuel, leaves_of t = L1 ++ l :: L2 -> length L2 < fuel ->
-  last_leaf fuel t (pid l) = Ok (pid (last L2 l)).
+  last_leaf fuel t (pid l) = Ok (pid (List.last L2 l)).
 Proof.
   intros t ND CO NN. induction L2 as [|l' L2 IH]; intros l L1 fuel E Hf.
   - destruct (@walk_step t L1 l [] ND CO E) as (id & c & ks & vs & -> & F).
-    destruct fuel as [|fuel]; [cbn in Hf; lia|]. cbn [last_leaf pid head_id last].
+    destruct fuel as [|fuel]; [cbn in Hf; lia|]. cbn [last_leaf pid head_id List.last].
     rewrite F. cbn [head_id]. rewrite N.eqb_refl. reflexivity.
   - destruct (@walk_step t L1 l (l' :: L2) ND CO E) as (id & c & ks & vs & -> & F).
     cbn [length] in Hf. destruct fuel as [|fuel]; [lia|]. cbn [last_leaf pid].
@@ -127,7 +134,9 @@ Proof.
       - discriminate. }
     destruct (N.eqb_spec (pid l') NULL) as [Ei|_]; [congruence|].
     rewrite (IH l' (L1 ++ [PLeaf id c ks vs (pid l')]) fuel).
-    + f_equal. cbn [last]. destruct L2; reflexivity.
+    + f_equal. f_equal. destruct L2 as [|y L2]; [reflexivity|].
+      change (List.last (y :: L2) l' = List.last (y :: L2) (PLeaf id c ks vs (pid l'))).
+      apply last_cons_indep.
     + rewrite <- app_assoc. exact E.
     + lia.
 Qed.
@@ -290,10 +299,4 @@ Lemma m_items_from_start : forall (m : amap pyval) b, m_sorted m ->
 Proof.
   intros m b Hs. unfold m_items. rewrite <- filter_keep_sorted by exact Hs.
   apply filter_ext_in. intros e He. apply in_range_keep. exact I.
-Qed.
-
-Lemma m_items_all : forall m : amap pyval, m_items m None None = m.
-Proof.
-  intros m. unfold m_items. induction m as [|e m IH]; [reflexivity|].
-  cbn [filter in_range andb]. f_equal. exact IH.
 Qed.
